@@ -109,7 +109,7 @@ Qed.
 
 Lemma div_c_first_order x ex c : c <> 0 -> first_order1 (fun t => t / c) x ex (nerr (ne_div_c (x, ex) c)).
 Proof.
-  intros Hc. exists (/ c). split; [auto_derive; [exact Hc | field; exact Hc]|].
+  intros Hc. exists (/ c). split; [auto_derive; [exact I | field; exact Hc]|].
   unfold prop1, ne_div_c, nerr; cbn [fst snd]. rewrite Rabs_inv by exact Hc. unfold Rdiv. ring.
 Qed.
 
@@ -128,7 +128,7 @@ Qed.
 Lemma neg_first_order x ex : first_order1 Ropp x ex (nerr (ne_neg (x, ex))).
 Proof.
   exists (-1). split; [auto_derive; [exact I | ring]|].
-  unfold prop1, ne_neg, nerr; cbn [fst snd]. rewrite Rabs_Ropp, Rabs_R1. ring.
+  unfold prop1, ne_neg, nerr; cbn [fst snd]. replace (Rabs (-1)) with 1 by (rewrite Rabs_left; lra). ring.
 Qed.
 
 Lemma log_first_order x ex : 0 < x -> first_order1 ln x ex (nerr (ne_log (x, ex))).
@@ -158,13 +158,13 @@ Proof.
   - apply (is_derive_ext (fun t => t ^ Pos.to_nat p)); [intros; reflexivity|].
     auto_derive; [exact I|].
     replace (Z.pos p - 1)%Z with (Z.of_nat (pred (Pos.to_nat p))) by lia.
-    rewrite <- pow_powerRZ, <- positive_nat_Z, <- INR_IZR_INZ. ring.
+    rewrite <- pow_powerRZ. rewrite (INR_IZR_INZ (Pos.to_nat p)), positive_nat_Z. ring.
   - assert (Hx : x <> 0) by (destruct H as [H|H]; [lia | exact H]).
     apply (is_derive_ext (fun t => / t ^ Pos.to_nat p)); [intros; reflexivity|].
     auto_derive; [apply pow_nonzero; exact Hx|].
     replace (Z.neg p - 1)%Z with (Z.neg (Pos.succ p)) by lia.
     cbn [powerRZ]. rewrite Pos2Nat.inj_succ.
-    change (IZR (Z.neg p)) with (IZR (- Z.pos p)). rewrite opp_IZR, <- positive_nat_Z, <- INR_IZR_INZ.
+    change (IZR (Z.neg p)) with (IZR (- Z.pos p)). rewrite opp_IZR. rewrite (INR_IZR_INZ (Pos.to_nat p)), positive_nat_Z.
     destruct (Pos2Nat.is_succ p) as [k Hk]. rewrite Hk. cbn [pred].
     assert (x ^ k <> 0) by (apply pow_nonzero; exact Hx).
     rewrite <- !tech_pow_Rmult. field. split; assumption.
@@ -243,8 +243,9 @@ Qed.
 Lemma rpow_old_refuted : ~ first_order1 (fun t => rpw 2 t) 3 (2 / 10) (nerr (ne_rpow_old 2 (3, 2 / 10))).
 Proof.
   intros (d & Hd & He).
-  pose proof (d_rpw_exp 2 3) as H. apply is_derive_unique in H. apply is_derive_unique in Hd.
-  rewrite Hd in H. subst d.
+  assert (Ed : d = ln 2 * rpw 2 3).
+  { apply is_derive_unique in Hd. rewrite <- Hd. apply is_derive_unique, d_rpw_exp. }
+  subst d.
   assert (H1 : 175 / 100 < nerr (ne_rpow_old 2 (3, 2 / 10))) by (unfold ne_rpow_old, nerr, nval, rpw; cbn [fst snd]; interval).
   assert (H2 : prop1 (ln 2 * rpw 2 3) (2 / 10) < 112 / 100) by (unfold prop1, rpw; interval).
   lra.
@@ -306,10 +307,8 @@ Lemma ff_grad_is_derive (fi fI : R -> R) t gi gI :
   is_derive (fun s => ff (fi s) (fI s)) t (ff_grad gi gI (fi t) (fI t)).
 Proof.
   intros Hi HI Hn. unfold ff, ff_grad.
-  evar (d : R). assert (Hd : is_derive (fun s => fi s / fI s) t d).
-  { apply (is_derive_div fi fI t gi gI Hi HI Hn). }
-  unfold d in Hd. eapply is_derive_ext_loc in Hd; [|apply filter_forall; intros; reflexivity].
-  replace (gi / fI t - fi t / fI t * gI / fI t) with ((gi * fI t - gI * fi t) / (fI t ^ 2)); [exact Hd|].
+  pose proof (is_derive_div fi fI t gi gI Hi HI Hn) as Hd.
+  replace (gi / fI t - fi t / fI t * gI / fI t) with ((gi * fI t - fi t * gI) / (fI t ^ 2)); [exact Hd|].
   field. exact Hn.
 Qed.
 
@@ -347,14 +346,18 @@ Proof. unfold bt_two, bt_two_d. auto_derive; [exact I | field]. Qed.
 
 Lemma bt_lower_is_derive a x : is_derive (bt_lower a) x (bt_lower_d x).
 Proof.
-  unfold bt_lower, bt_lower_d. auto_derive; [split; [apply x2p1_pos | exact I]|].
-  field. apply Rgt_not_eq, sqrt_lt_R0, x2p1_pos.
+  unfold bt_lower, bt_lower_d. pose proof (x2p1_pos x) as Hp.
+  auto_derive; [replace (x * (x * 1) + 1) with (x ^ 2 + 1) by ring; exact Hp|].
+  replace (x * (x * 1) + 1) with (x ^ 2 + 1) by ring.
+  field. apply Rgt_not_eq, sqrt_lt_R0, Hp.
 Qed.
 
 Lemma bt_upper_is_derive b x : is_derive (bt_upper b) x (bt_upper_d x).
 Proof.
-  unfold bt_upper, bt_upper_d. auto_derive; [split; [apply x2p1_pos | exact I]|].
-  field. apply Rgt_not_eq, sqrt_lt_R0, x2p1_pos.
+  unfold bt_upper, bt_upper_d. pose proof (x2p1_pos x) as Hp.
+  auto_derive; [replace (x * (x * 1) + 1) with (x ^ 2 + 1) by ring; exact Hp|].
+  replace (x * (x * 1) + 1) with (x ^ 2 + 1) by ring.
+  field. apply Rgt_not_eq, sqrt_lt_R0, Hp.
 Qed.
 
 (* ---------- finite sums ---------- *)
@@ -423,16 +426,21 @@ Proof.
   cbn [combine map nth]. apply IH; cbn in *; lia.
 Qed.
 
-Lemma trans_error_matrix_entry d : forall V i j,
-  (i < length d)%nat -> (i < length V)%nat -> (j < length d)%nat -> (j < length (nth i V []))%nat ->
-  mget (trans_error_matrix d V) i j = nth i d 0 * mget V i j * nth j d 0.
+Lemma tem_aux dfull : forall d V i j,
+  (i < length d)%nat -> (i < length V)%nat -> (j < length dfull)%nat -> (j < length (nth i V []))%nat ->
+  nth j (nth i (map (fun p : R * list R => scale_row (fst p) dfull (snd p)) (combine d V)) []) 0
+  = nth i d 0 * nth j (nth i V []) 0 * nth j dfull 0.
 Proof.
-  unfold mget, trans_error_matrix. generalize d at 2 4 6 as d0.
-  induction d as [|a d IH]; intros d0 V i j Hi HV Hj Hr; [cbn in Hi; lia|].
+  induction d as [|a d IH]; intros V i j Hi HV Hj Hr; [cbn in Hi; lia|].
   destruct V as [|row V]; [cbn in HV; lia|]. destruct i.
   - cbn [combine map nth fst snd]. cbn [nth] in Hr. apply scale_row_nth; assumption.
-  - cbn [combine map nth]. apply IH; cbn in *; try lia. exact Hr.
+  - cbn [combine map nth]. apply IH; cbn in *; solve [lia | exact Hr | assumption].
 Qed.
+
+Lemma trans_error_matrix_entry d V i j :
+  (i < length d)%nat -> (i < length V)%nat -> (j < length d)%nat -> (j < length (nth i V []))%nat ->
+  mget (trans_error_matrix d V) i j = nth i d 0 * mget V i j * nth j d 0.
+Proof. intros. unfold mget, trans_error_matrix. apply tem_aux; assumption. Qed.
 
 (* ---------- Hessian -> errors ---------- *)
 Lemma zero_or_nonzero n (v : nat -> R) :
@@ -477,8 +485,9 @@ Qed.
 Lemma hesse_error_nth V i : (i < length V)%nat -> nth i (hesse_error V) 0 = sqrt (Rabs (mget V i i)).
 Proof.
   intros Hi. unfold hesse_error.
-  rewrite (nth_indep _ 0 ((fun k => sqrt (Rabs (mget V k k))) 0%nat)) by (rewrite map_length, seq_length; exact Hi).
-  rewrite map_nth, seq_nth by exact Hi. reflexivity.
+  set (F := fun k : nat => sqrt (Rabs (mget V k k))).
+  rewrite (nth_indep _ 0 (F 0%nat)) by (rewrite map_length, seq_length; exact Hi).
+  rewrite (map_nth F), seq_nth by exact Hi. reflexivity.
 Qed.
 
 (* n = 2 written out: the errors are sqrt(c/det), sqrt(a/det) *)
@@ -491,12 +500,67 @@ Proof.
   assert (Hdn : a * c - b * b <> 0) by lra.
   assert (H11 : v11 = c / (a * c - b * b)).
   { apply (Rmult_eq_reg_l (a * c - b * b)); [|exact Hdn].
-    replace ((a * c - b * b) * (c / (a * c - b * b))) with c by (field; exact Hdn). nra. }
+    replace ((a * c - b * b) * (c / (a * c - b * b))) with c by (field; exact Hdn).
+    replace ((a * c - b * b) * v11) with (c * (a * v11 + b * v21) - b * (b * v11 + c * v21)) by ring. rewrite E1, E3. ring. }
   assert (H22 : v22 = a / (a * c - b * b)).
   { apply (Rmult_eq_reg_l (a * c - b * b)); [|exact Hdn].
-    replace ((a * c - b * b) * (a / (a * c - b * b))) with a by (field; exact Hdn). nra. }
+    replace ((a * c - b * b) * (a / (a * c - b * b))) with a by (field; exact Hdn).
+    replace ((a * c - b * b) * v22) with (a * (b * v12 + c * v22) - b * (a * v12 + b * v22)) by ring. rewrite E2, E4. ring. }
   assert (Hc : 0 < c) by nra.
   unfold hesse_error, mget; cbn [length seq map nth].
   rewrite H11, H22.
   rewrite !Rabs_pos_eq; [reflexivity | |]; left; apply Rdiv_lt_0_compat; assumption.
+Qed.
+
+(* ---------- every operator rule at once ---------- *)
+Lemma op_err_is_first_order x y ex ey c (n : Z) :
+  first_order2 Rplus x y ex ey (nerr (ne_add (x, ex) (y, ey))) /\
+  first_order2 Rminus x y ex ey (nerr (ne_sub (x, ex) (y, ey))) /\
+  first_order2 Rmult x y ex ey (nerr (ne_mul (x, ex) (y, ey))) /\
+  (y <> 0 -> first_order2 Rdiv x y ex ey (nerr (ne_div (x, ex) (y, ey)))) /\
+  (0 < x -> first_order2 rpw x y ex ey (nerr (ne_pow (x, ex) (y, ey)))) /\
+  first_order1 (fun t => t + c) x ex (nerr (ne_add_c (x, ex) c)) /\
+  first_order1 (fun t => t - c) x ex (nerr (ne_sub_c (x, ex) c)) /\
+  first_order1 (fun t => t * c) x ex (nerr (ne_mul_c (x, ex) c)) /\
+  (c <> 0 -> first_order1 (fun t => t / c) x ex (nerr (ne_div_c (x, ex) c))) /\
+  (0 < x -> first_order1 (fun t => rpw t c) x ex (nerr (ne_pow_c (x, ex) c))) /\
+  ((0 <= n)%Z \/ x <> 0 -> first_order1 (fun t => powerRZ t n) x ex (nerr (ne_pow_z (x, ex) n))) /\
+  (0 < c -> first_order1 (fun t => rpw c t) x ex (nerr (ne_rpow c (x, ex)))) /\
+  first_order1 Ropp x ex (nerr (ne_neg (x, ex))) /\
+  (0 < x -> first_order1 ln x ex (nerr (ne_log (x, ex)))) /\
+  first_order1 exp x ex (nerr (ne_exp (x, ex))).
+Proof.
+  split; [apply add_first_order|]. split; [apply sub_first_order|]. split; [apply mul_first_order|].
+  split; [apply div_first_order|]. split; [apply pow_first_order|]. split; [apply add_c_first_order|].
+  split; [apply sub_c_first_order|]. split; [apply mul_c_first_order|]. split; [apply div_c_first_order|].
+  split; [apply pow_c_first_order|]. split; [apply pow_z_first_order|]. split; [intros _; apply rpow_first_order|].
+  split; [apply neg_first_order|]. split; [apply log_first_order|]. apply exp_first_order.
+Qed.
+
+(* a one-operand rule is the two-operand rule with a certain second operand *)
+Lemma first_order1_of_2 (f : R -> R -> R) x y ex e d2 :
+  0 <= ex -> is_derive (fun t => f x t) y d2 -> first_order1 (fun t => f t y) x ex e -> first_order2 f x y ex 0 e.
+Proof.
+  intros Hex H2 (d & Hd & He). exists d, d2. split; [exact Hd|]. split; [exact H2|].
+  rewrite prop2_zero_r, He. unfold prop1. rewrite (Rabs_pos_eq ex) by exact Hex. reflexivity.
+Qed.
+
+(* a concrete positive definite Hessian with its inverse: the hypotheses of hesse_from_inverse are satisfiable *)
+Definition exH (i j : nat) : R := if Nat.eqb i j then 2 else 1.
+Definition exV (i j : nat) : R := if Nat.eqb i j then 2 / 3 else - 1 / 3.
+
+Lemma exH_pos_def : pos_def 2 exH.
+Proof.
+  intros w (k & Hk & Hw). unfold fquad, exH; cbn [rsum_n Nat.eqb].
+  assert (Hc : w 0%nat <> 0 \/ w 1%nat <> 0).
+  { destruct k as [|[|k]]; [left; exact Hw | right; exact Hw | lia]. }
+  assert (Hs : 0 < w 0%nat ^ 2 + w 1%nat ^ 2).
+  { destruct Hc as [Hc|Hc]; pose proof (pow2_gt_0 _ Hc); pose proof (pow2_ge_0 (w 0%nat)); pose proof (pow2_ge_0 (w 1%nat)); lra. }
+  pose proof (pow2_ge_0 (w 0%nat + w 1%nat)). nra.
+Qed.
+
+Lemma exHV_inverse : is_right_inverse 2 exH exV.
+Proof.
+  intros i j Hi Hj. destruct i as [|[|i]]; destruct j as [|[|j]]; try lia;
+    unfold exH, exV, delta; cbn [rsum_n Nat.eqb]; field.
 Qed.
